@@ -40,7 +40,7 @@ def dispatch (line : String) : String :=
     | some "join" => S18.runC18 fields obs
     | some "match" => S16.runC16 fields obs
     | some "fn" => S16.runC16 fields obs
-    | some "fnt" => S16.runC16 fields obs
+    | some "fnt" | some "fne" => S16.runC16 fields obs
     | some "fsm" => S17.runC17 fields obs
     | some "prog" => S06.runC06 fields obs
     | some "cdec" => S06.runCdec fields obs
